@@ -4,7 +4,6 @@ import (
 	"context"
 	"fmt"
 	"sort"
-	"strings"
 
 	"google.golang.org/grpc/codes"
 	"google.golang.org/grpc/status"
@@ -145,8 +144,9 @@ func (q Keeper) ConsensusStates(c context.Context, req *types.QueryConsensusStat
 		store,
 		req.Pagination,
 		func(key, value []byte, accumulate bool) (bool, error) {
-			// filter any metadata stored under consensus state key
-			if strings.Contains(string(key), "/") {
+			// filter any metadata stored under consensus state key: a consensus state key is the
+			// 16 raw big-endian bytes of its height, which may themselves contain the separator "/"
+			if len(key) != 16 {
 				return false, nil
 			}
 			revNum := sdk.BigEndianToUint64(key[:8])
